@@ -12,6 +12,9 @@ use crate::vm::VMBinding;
 /// Size of a bump allocator block. Currently it is set to 32 KB.
 const BLOCK_SIZE: usize = 8 << crate::util::constants::LOG_BYTES_IN_PAGE;
 const BLOCK_MASK: usize = BLOCK_SIZE - 1;
+/// Verification hook: the size of the blocks a bump allocator acquires from its space.
+#[cfg(feature = "verif")]
+pub(crate) const VERIF_BLOCK_SIZE: usize = BLOCK_SIZE;
 
 /// A bump pointer allocator. It keeps a thread local allocation buffer,
 /// and bumps a cursor to allocate from the buffer.
